@@ -79,7 +79,7 @@ def _boom(*a):
     raise RuntimeError("callable replaced by the caller after construction was used")
 
 
-def check_sample(A, kinds, n, fset=0, seed=0, mutate_after=False):
+def check_sample(A, kinds, n, fset=0, seed=0, mutate_after=False, rev=False):
     A = np.asarray(A)
     p = len(A)
     n = int(n)
@@ -94,6 +94,8 @@ def check_sample(A, kinds, n, fset=0, seed=0, mutate_after=False):
     do = {i: recorder(logs[("do", i)], (seed, 1, i)) for i in range(p) if "do" in kinds[i].split("+")}
     shift = {i: recorder(logs[("shift", i)], (seed, 2, i)) for i in range(p) if "shift" in kinds[i].split("+")}
     noise = {i: recorder(logs[("noise", i)], (seed, 3, i)) for i in range(p) if "noise" in kinds[i].split("+")}
+    if rev:      # the same interventions listed in descending key order (a dict need not be sorted by target)
+        do, shift, noise = (dict(reversed(list(d.items()))) for d in (do, shift, noise))
     A_arg = A.copy()
     a_list, n_list = list(assignments), list(noise_dists)
     st, anm = C.call(S.ANM, A_arg, a_list, n_list)
@@ -197,7 +199,55 @@ def check_init(A):
     return 1, viols
 
 
-CHECKS = {F_SAMPLE: check_sample, F_INIT: check_init}
+def check_history(A, n=4, seed=0):
+    """call history on models that use the library's own factories: zero-noise variables stay exact functions of their parents
+    (and parentless ones exactly 0) after earlier calls that shifted / replaced noise -- on the same model and on a model built later"""
+    A = np.asarray(A)
+    p = len(A)
+    if not O.acyclic(p, O.encode(A)):
+        return 0, []
+    parents = [[j for j in range(p) if A[j, i] != 0] for i in range(p)]
+
+    def lin(i):
+        k = len(parents[i])
+        w = np.arange(1, k + 1, dtype=float) * (1 if i % 2 else -1)
+        return (lambda X, w=w: X @ w) if k else None
+    calls = 0
+    viols = []
+
+    def build():
+        return S.ANM(A, [lin(i) for i in range(p)], [S.noise.zero() for _ in range(p)])
+
+    def exact(X, what):
+        for i in range(p):
+            want = X[:, parents[i]] @ (np.arange(1, len(parents[i]) + 1, dtype=float) * (1 if i % 2 else -1)) if parents[i] else np.zeros(len(X))
+            if not close(X[:, i], want):
+                viols.append(("ANM.sample: a zero-noise variable is not its assignment applied to its parents (call history)",
+                              "%s: node %d parents %s column %s expected %s" % (what, i, parents[i], X[:, i].tolist(), want.tolist())))
+                return
+    anm = build()
+    rng = np.random.default_rng(seed)
+    for step in range(3):
+        st, X = C.call(anm.sample, n); calls += 1
+        if st == "exc":
+            return calls, C.unexpected_exception(X, "ANM.sample (zero noise)")
+        exact(X, "observational call %d" % step)
+        t = int(rng.integers(p))
+        draws = rng.normal(size=n) + 3.0
+        st, Y = C.call(anm.sample, n, shift_interventions={t: (lambda m, d=draws: d.copy())}); calls += 1
+        if st == "exc":
+            return calls, C.unexpected_exception(Y, "ANM.sample with a shift on a zero-noise variable")
+        if viols:
+            break
+        anm2 = build()
+        st, Z = C.call(anm2.sample, n); calls += 1
+        if st != "exc":
+            exact(Z, "model built after a shifted call")
+    return calls, viols
+
+
+F_HIST = F_SAMPLE + "#history"
+CHECKS = {F_SAMPLE: check_sample, F_INIT: check_init, F_HIST: check_history}
 
 # ----------------------------------------------------------------------------
 # domain
@@ -232,14 +282,14 @@ def worker(task):
             for k, a in enumerate(assigns):
                 mi, fset = k % 2, (k // 2) % N_FSETS
                 for n in NS:
-                    t.check(F_SAMPLE, A=mats[mi], kinds=list(a), n=n, fset=fset, seed=hseed, mutate_after=rng.random() < 0.3)
+                    t.check(F_SAMPLE, A=mats[mi], kinds=list(a), n=n, fset=fset, seed=hseed, mutate_after=rng.random() < 0.3, rev=rng.random() < 0.5)
                 t.mark((p, code, mi, fset, a))
             continue
         for mi, M in enumerate(mats):
             for fset in fsets:
                 for a in assigns:
                     for n in NS:
-                        t.check(F_SAMPLE, A=M, kinds=list(a), n=n, fset=fset, seed=hseed, mutate_after=rng.random() < 0.3)
+                        t.check(F_SAMPLE, A=M, kinds=list(a), n=n, fset=fset, seed=hseed, mutate_after=rng.random() < 0.3, rev=rng.random() < 0.5)
                     t.mark((p, code, mi, fset, a))
     return t.export()
 
@@ -258,7 +308,7 @@ def big_worker(task):
     for rep in range(6):
         kinds = [rng.choice(KINDS) for _ in range(p)]
         for fset in range(min(N_FSETS, 3)):
-            t.check(F_SAMPLE, A=A if rep % 2 else (A != 0).astype(int), kinds=kinds, n=5, fset=fset, seed=hseed)
+            t.check(F_SAMPLE, A=A if rep % 2 else (A != 0).astype(int), kinds=kinds, n=5, fset=fset, seed=hseed, rev=bool(rep % 3 == 1))
         t.mark((p, which, rep))
     return t.export()
 
@@ -318,12 +368,18 @@ def run(tier, seed):
     t3 = C.Tally(HARNESS, CHECKS)
     C.run_pool(big_worker, [(w, seed) for w in range(8 if thorough else 4)], t3)
     tally.merge(t3.export())
+    t4 = C.Tally(HARNESS, CHECKS)
+    for pp in (1, 2, 3):
+        for code in O.all_dags(pp):
+            t4.check(F_HIST, A=O.decode(pp, code), n=4, seed=seed)
+            t4.mark(("hist", pp, code))
+    tally.merge(t4.export())
     rule = ("every DAG on p<=%s as 0/1 int matrix and as signed float weights whose multi-parent columns sum to zero x every assignment of "
             "%s to the nodes (%s) x n in %s x %d families of non-linear assignment callables that are not symmetric in their arguments "
             "(returning (n,), (n,1) or a scalar; None / functions.null for parentless nodes), recording noise callables; in ~30%% of the cases "
             "the caller's A, assignment list and noise list are overwritten after construction. Each column is recomputed from the logged draws "
             "by recursion over the oracle's own parent sets (rtol=atol=1e-10) and the arguments received by the assignment callables are "
-            "compared with the returned parent columns; result shape (n,p); plus fixed 10-node graphs whose parent sets mix indices below and above 8. constructor: every 0/1 matrix with diagonal on p<=3%s x "
+            "compared with the returned parent columns; result shape (n,p); plus fixed 10-node graphs whose parent sets mix indices below and above 8; intervention dicts in ascending and in descending key order; call histories on models using sempler.noise.zero() (observational, shift on a zero-noise variable, observational again, a model built afterwards). constructor: every 0/1 matrix with diagonal on p<=3%s x "
             "{0/1, antisymmetric +-1, signed}: ValueError iff the oracle finds a cycle, A copied. non-trivial = (p, DAG, matrix kind, family, assignment)"
             % ("4", list(KINDS), "all 6^p for p<=4; at p=4 matrix kind and callable family rotate with the assignment" if thorough else "all 6^p for p<=3 with both matrix kinds and every listed family, 12 sampled per DAG for p=4", list(NS), len(fsets),
                " and 4000 sampled p=4" if thorough else ""))
